@@ -98,7 +98,7 @@ def run_slices(ctx, prop):
 # --------------------------------------------------------------------------------------------------------------
 # spec pc -> E-SIM label of the pending operation (binding table; validated against labels observed in E-SIM runs)
 WLABEL = {"w0": "start", "winit": "init", "wrl": "cq.rlock.acq", "wpoll": "cq.r.poll", "wrlt": "cq.rlock.rel", "wrecv": "cq.r.recv",
-          "wsem": "cq.sem.rel", "wrlrel": "cq.rlock.rel", "wunl": "task.run", "wrun": "task.run", "wbody": "task.run",
+          "wsem": "cq.sem.rel", "wrlrel": "cq.rlock.rel", "wrlrel0": "cq.rlock.rel", "wsem0": "cq.sem.rel", "wunl": "task.run", "wrun": "task.run", "wbody": "task.run",
           "wwl": "rq.wlock.acq", "wsend": "rq.w.send", "wsend2": "rq.w.send2", "wwrel": "rq.wlock.rel", "wtmo": "mgmt.try",
           "wmrel": "mgmt.rel", "wann": "rq.wlock.acq", "wann2": "rq.w.send", "wann3": "rq.wlock.rel", "wexl": "exitlock", "wexit": "exitlock"}
 KINDMAP = {"ok": "ok", "bad_arg": "unpicklable_arg", "crash": "crash", "long": "long", "big": "big", "unload": "unloadable_arg", "huge": "hugearg"}
